@@ -1,7 +1,257 @@
 package main
 
-// Replay of solver models against the real code (go test -overlay); drivers are per function family.
+// Replay of solver models against the real code.
+//
+// A replay driver turns the model of a refuted obligation into a Go test that is compiled into the function's
+// own package through `go test -overlay` (nothing is written to the repository) and fails iff the real code
+// violates the clause (panics, or the observed behaviour contradicts it).
+
+import (
+	"encoding/json"
+	"fmt"
+	"os"
+	"os/exec"
+	"path/filepath"
+	"regexp"
+	"strconv"
+	"strings"
+	"time"
+)
+
+type replayDriver struct {
+	name  string
+	match func(ob *Oblig) bool
+	// extra terms to read from the model (besides the function's inputs)
+	terms func(ob *Oblig) []ModelVar
+	// build returns the package directory (relative to the repo) and the test source
+	build func(ob *Oblig, m map[string]string) (dir string, src string, ok bool)
+}
+
+var replayDrivers []replayDriver
+
+func registerReplay(d replayDriver) { replayDrivers = append(replayDrivers, d) }
+
+func driverFor(ob *Oblig) *replayDriver {
+	for i := range replayDrivers {
+		if replayDrivers[i].match(ob) {
+			return &replayDrivers[i]
+		}
+	}
+	return nil
+}
+
+// addReplayTerms extends the obligation's model request with the driver's terms.
+func addReplayTerms(ob *Oblig) {
+	if d := driverFor(ob); d != nil && d.terms != nil {
+		ob.Inputs = append(append([]ModelVar(nil), ob.Inputs...), d.terms(ob)...)
+	}
+}
 
 func replayModel(o options, w *World, ob *Oblig, model map[string]string) (bool, string) {
-	return false, ""
+	d := driverFor(ob)
+	if d == nil {
+		return false, ""
+	}
+	dir, src, ok := d.build(ob, model)
+	if !ok {
+		return false, "replay driver " + d.name + ": model not replayable"
+	}
+	failed, out := runReplayTest(o, dir, src)
+	return failed, "driver " + d.name + "\n--- test source\n" + src + "\n--- go test output\n" + out
+}
+
+// runReplayTest compiles the test into the package with -overlay and reports whether it FAILED.
+func runReplayTest(o options, dir, src string) (bool, string) {
+	tmp, err := os.MkdirTemp("", "gocv-replay-")
+	if err != nil {
+		return false, err.Error()
+	}
+	defer os.RemoveAll(tmp)
+	testFile := filepath.Join(tmp, "gocv_replay_test.go")
+	if err := os.WriteFile(testFile, []byte(src), 0o644); err != nil {
+		return false, err.Error()
+	}
+	pkgDir := filepath.Join(o.repo, dir)
+	ov := map[string]any{"Replace": map[string]string{filepath.Join(pkgDir, "gocv_replay_test.go"): testFile}}
+	b, _ := json.Marshal(ov)
+	ovFile := filepath.Join(tmp, "overlay.json")
+	os.WriteFile(ovFile, b, 0o644)
+	cmd := exec.Command("go", "test", "-overlay", ovFile, "-vet=off", "-count=1", "-timeout", "60s", "-run", "^TestGocvReplay$", ".")
+	cmd.Dir = pkgDir
+	env := []string{}
+	for _, e := range os.Environ() {
+		if strings.HasPrefix(e, "GOFLAGS=") || strings.HasPrefix(e, "GOWORK=") {
+			continue
+		}
+		env = append(env, e)
+	}
+	// scratch copies have no go.work: fall back to module mode with the repository's own go.sum
+	if _, err := os.Stat(filepath.Join(o.repo, "go.work")); err != nil {
+		env = append(env, "GOFLAGS=-mod=mod", "GOWORK=off")
+	}
+	env = append(env, "GOPROXY=off", "GOSUMDB=off", "GOTOOLCHAIN=local", "GOMAXPROCS=4")
+	cmd.Env = env
+	done := make(chan struct{})
+	var out []byte
+	go func() { out, err = cmd.CombinedOutput(); close(done) }()
+	select {
+	case <-done:
+	case <-time.After(120 * time.Second):
+		cmd.Process.Kill()
+		return false, "replay timed out"
+	}
+	s := string(out)
+	if strings.Contains(s, "[build failed]") || strings.Contains(s, "[setup failed]") || strings.Contains(s, "no test files") {
+		return false, "replay test did not build:\n" + truncate(s, 3000)
+	}
+	failed := err != nil && (strings.Contains(s, "--- FAIL") || strings.Contains(s, "panic:") || strings.Contains(s, "FAIL"))
+	return failed, truncate(s, 4000)
+}
+
+// ---------------------------------------------------------------------------
+// helpers for reading model values
+
+var negInt = regexp.MustCompile(`^\(-\s*(\d+)\)$`)
+
+func modelInt(s string) (int64, bool) {
+	s = strings.TrimSpace(s)
+	if m := negInt.FindStringSubmatch(s); m != nil {
+		n, err := strconv.ParseInt(m[1], 10, 64)
+		return -n, err == nil
+	}
+	n, err := strconv.ParseInt(s, 10, 64)
+	return n, err == nil
+}
+
+// modelStr maps a Str-sorted model value back to a literal of the context when it is one
+// (the literals' own model values are requested as "lit:<text>").
+func modelStr(c *Ctx, m map[string]string, s string) (string, bool) {
+	for lit, name := range c.strLits {
+		if name == s || m["lit:"+lit] == s {
+			return lit, true
+		}
+	}
+	return "", false
+}
+
+func strLitTerms(c *Ctx) []ModelVar {
+	var out []ModelVar
+	for _, lit := range sortedKeys(c.strLits) {
+		out = append(out, ModelVar{Name: "lit:" + lit, Term: c.strLits[lit]})
+	}
+	return out
+}
+
+func ptrSample(k int64) (string, bool) {
+	s, ok := kindSamples[k]
+	if !ok || k == 0 {
+		return "", false
+	}
+	return "func() any { x := " + s + "; return &x }()", true
+}
+
+func (ob *Oblig) inputTerm(name string) string {
+	for _, in := range ob.ctx.inputs {
+		if in.Name == name {
+			return in.Term
+		}
+	}
+	return ""
+}
+
+// ---------------------------------------------------------------------------
+// driver: schema.(*Value).ValueFrom / schema.NewValue — panic obligations (C16)
+
+var kindSamples = map[int64]string{
+	0: "nil", 1: "true", 2: "int(-5)", 3: "int8(-5)", 4: "int16(-5)", 5: "int32(-5)", 6: "int64(-5)",
+	7: "uint(5)", 8: "uint8(5)", 9: "uint16(5)", 10: "uint32(5)", 11: "uint64(5)", 12: "uintptr(5)",
+	13: "float32(1.5)", 14: "float64(1.5)", 15: "complex64(1)", 16: "complex128(1)",
+	17: "[2]int{1, 2}", 18: "make(chan int)", 19: "func() {}", 21: "map[string]any{\"a\": 1}",
+	22: "&struct{ A int }{1}", 23: "[]any{1, \"a\"}", 24: "replayNamedString(\"[1]\")", 25: "struct{ A int }{1}", 26: "unsafe.Pointer(nil)",
+}
+
+func init() {
+	registerReplay(replayDriver{
+		name: "schema.Value.ValueFrom",
+		match: func(ob *Oblig) bool {
+			return ob.Class == "panic" && (strings.HasPrefix(ob.Func, "schema.(*Value).ValueFrom") || strings.HasPrefix(ob.Func, "schema.NewValue"))
+		},
+		terms: func(ob *Oblig) []ModelVar {
+			c := ob.ctx
+			var out []ModelVar
+			if v := ob.inputTerm("value"); v != "" && c.declared["sf_kindOfDyn"] {
+				out = append(out, ModelVar{Name: "kind(value)", Term: "(sf_kindOfDyn (i_tag " + v + "))"}, ModelVar{Name: "tag(value)", Term: "(i_tag " + v + ")"})
+			}
+			if v := ob.inputTerm("value"); v != "" && c.declared["pf_reflect_Value.Elem_0"] && c.declared["pf_reflect_ValueOf_0"] {
+				out = append(out, ModelVar{Name: "kind(*value)", Term: "(sf_vkind (pf_reflect_Value.Elem_0 (pf_reflect_ValueOf_0 " + v + ")))"})
+			}
+			if iv := ob.inputTerm("iv"); iv != "" {
+				if _, ok := c.heapSorts()["F:schema.Value.ItemType"]; ok {
+					out = append(out, ModelVar{Name: "iv.ItemType", Term: "(select H_F_schema.Value.ItemType_e0 " + iv + ")"})
+				}
+			}
+			return append(out, strLitTerms(c)...)
+		},
+		build: func(ob *Oblig, m map[string]string) (string, string, bool) {
+			c := ob.ctx
+			sample := "nil"
+			if tg, ok := modelInt(m["tag(value)"]); ok && tg != 0 {
+				k, ok := modelInt(m["kind(value)"])
+				if !ok {
+					return "", "", false
+				}
+				s, ok := kindSamples[k]
+				if !ok {
+					return "", "", false
+				}
+				sample = s
+				if k == 22 {
+					if ek, ok := modelInt(m["kind(*value)"]); ok {
+						if ps, ok := ptrSample(ek); ok {
+							sample = ps
+						}
+					}
+				}
+				// the model's dynamic type may be exactly `string` (tag of the basic type)
+				if k == 24 && tg == int64(c.tags["string"]) {
+					sample = `"[1]"`
+				}
+			}
+			itemType := ""
+			if s, ok := m["iv.ItemType"]; ok {
+				if lit, ok := modelStr(c, m, s); ok {
+					itemType = lit
+				} else {
+					itemType = "unlisted-type"
+				}
+			}
+			call := fmt.Sprintf("v := &Value{ItemType: ItemType(%q)}\n\tv.ValueFrom(arg)", itemType)
+			if strings.HasPrefix(ob.Func, "schema.NewValue") {
+				call = "_ = NewValue(arg)"
+			}
+			src := fmt.Sprintf(`package schema
+
+import (
+	"testing"
+	"unsafe"
+)
+
+type replayNamedString string
+
+var _ = unsafe.Pointer(nil)
+
+// generated by gocv from the model of obligation %s
+func TestGocvReplay(t *testing.T) {
+	var arg any = %s
+	defer func() {
+		if r := recover(); r != nil {
+			t.Fatalf("real code panicked: %%v", r)
+		}
+	}()
+	%s
+}
+`, ob.Name, sample, call)
+			return "schema", src, true
+		},
+	})
 }
